@@ -1060,3 +1060,8 @@ M('c15-rsync-ignore-errors', 'C15', "            '-azh',\n            '--no-whol
 M('c15-rsync-size-only', 'C15', "            '-azh',\n            '--no-whole-file',\n        ]", "            '-azh',\n            '--no-whole-file',\n            '--size-only',\n        ]", 'C15.R5', B)
 M('c15-packs-append', 'C15', "    manager.call_rsync(packs_path, path, link_dest=prev_backup)", "    manager.call_rsync(packs_path, path, link_dest=prev_backup, extra_args=['--append'])", 'C15.R5', B)
 T('c15-twin-dump-name-from-path', 'C15', "        sqlite_temp_loc = Path(temp_dir_name) / 'packs.idx'", "        sqlite_temp_loc = Path(temp_dir_name) / sqlite_path.name", B)
+
+# ------------------------------------------------------------------------------------------------ C13 (round 2)
+M('c13-cache-beyond-returned', 'C13', "        self._current_pack_id = pack_id\n        return pack_id", "        self._current_pack_id = pack_id + 1\n        return pack_id", 'C13.R2s')
+M('c13-ignore-known-size', 'C13', "            if known_sizes and pack_id in known_sizes:\n                size = known_sizes[pack_id]\n            else:\n                size = pack_path.stat().st_size", "            size = pack_path.stat().st_size", 'C13.R2s')
+M('c13-lock-not-exclusive', 'C13', "            with open(lock_file, 'x'):\n                with open(pack_file, 'ab') as pack_handle:", "            with open(lock_file, 'w'):\n                with open(pack_file, 'ab') as pack_handle:", 'C13.R1')
